@@ -97,6 +97,10 @@ where
     fn run_to_fixpoint(&mut self, n: &mut Node) {
         debug_assert!(!self.changed, "Pass has already been run");
         loop {
+            #[cfg(feature = "verif-hooks")]
+            if crate::verif::tick() {
+                break;
+            }
             self.changed = false;
             self.run_postorder(n);
             if !self.changed {
@@ -500,6 +504,10 @@ fn simplify_brackets(n: &mut Node, _walk: &Walk) -> PassAction {
 pub fn optimize(r: &mut Regex) {
     run_pass(r, &mut simplify_brackets);
     loop {
+        #[cfg(feature = "verif-hooks")]
+        if crate::verif::tick() {
+            break;
+        }
         let mut changed = false;
         changed |= run_pass(r, &mut decat);
         changed |= run_pass(r, &mut unroll_loops);
